@@ -111,6 +111,7 @@ type rpcOutcome struct {
 	Desc    string `json:"desc"`
 	Param   string `json:"param"` // "nil" or decimal or %T
 	Err     string `json:"err,omitempty"`
+	ErrStr  string `json:"errstr,omitempty"` // what Error() prints
 }
 
 func rpcRun(code int32, text string) (out rpcOutcome) {
@@ -124,8 +125,7 @@ func rpcRun(code int32, text string) (out rpcOutcome) {
 	if !ok {
 		return rpcOutcome{Kind: "other", Err: fmt.Sprintf("%T", err)}
 	}
-	_ = e.Error()
-	out = rpcOutcome{Kind: "ok", Code: e.Code, Message: e.Message, Desc: e.Description}
+	out = rpcOutcome{Kind: "ok", Code: e.Code, Message: e.Message, Desc: e.Description, ErrStr: e.Error()}
 	switch p := e.AdditionalInfo.(type) {
 	case nil:
 		out.Param = "nil"
@@ -184,6 +184,11 @@ func init() {
 				}
 				if got.Code != int(code) {
 					rep.Disagree("code:"+cls, fmt.Sprintf("RpcErrorToNative(%d, %q).Code = %d", code, text, got.Code), item)
+					continue
+				}
+				// the server's text is data: it is never used as a format (fmt marks a misused verb with "%!")
+				if !strings.Contains(text, "%!") && (strings.Contains(got.Desc, "%!") || strings.Contains(got.ErrStr, "%!")) {
+					rep.Disagree("text-used-as-format:"+cls, fmt.Sprintf("%q: description %q, Error() %q", text, got.Desc, got.ErrStr), item)
 					continue
 				}
 				switch c.Expect.Kind {
